@@ -68,11 +68,14 @@ class Acc:
     """accumulator used inside workers"""
     def __init__(self, label):
         self.label, self.n, self.sigs, self.sample, self.viols = label, 0, set(), None, []
+        self.klass = ''         # structural class of the case (e.g. 'OS=1,pg=2,dim=2'): appended to every witness signature so that
+                                # a known finding can name the class of inputs it was reproduced on instead of catalogue ids
 
     def check(self, ok, clause, detail='', sig=None, **kw):
         self.n += 1
         if sig is not None: self.sigs.add(sig)
         if not ok and len(self.viols) < 8:
+            if self.klass: kw['signature'] = '%s|class:%s' % (kw.get('signature', ''), self.klass)
             self.viols.append(dict(clause=clause, detail=str(detail)[:600], **kw))
         return ok
 
